@@ -15,10 +15,15 @@
    - theorems for ALL key blocks / halves / round keys / salts: the 16 round keys of desSetKey are the FIPS round keys,
      one dEncrypt step is one Feistel round with crypt(3)'s salted E;
    - C02_equals_crypt3: whole-function equality with textbook crypt(3) for ALL passwords and ALL alphabet salts;
+   - C02_calls_independent, C02_order_independent: the model functions have no state, so the answers of ANY sequence
+     of calls are the single-call answers, at every position and in every order — true by construction of the model;
+     that the Go code is such a function (no result aliasing a shared buffer, no shared scratch state) is what the
+     harness checks with sessions of calls whose results are kept uncopied and with concurrent goroutines;
    - C02_reject_partial: "rejected for any differing password" CANNOT be proved (it would say that DES has no
      colliding keys here); it is exercised by differential testing only. *)
 From Verif Require Import Base.Common Gen.CryptTab Model.C02 Model.C02_DesSpec Proofs.C02.
 From Verif Require Model.C02_Frozen.
+From Coq Require Import Permutation.
 
 (* Every hash made with a 7-bit salt (what GenPasswd draws; what an ASCII hash carries) is 13 characters plus NUL:
    the two salt characters (a zero byte written as 'A'), then eleven characters of ./0-9A-Za-z. No crash. *)
@@ -205,3 +210,34 @@ Theorem C02_reject_partial :
   (forall pw pw', low7_key pw <> low7_key pw' -> keyblock pw <> keyblock pw').
 Proof. exact reject_partial. Qed.
 Print Assumptions C02_reject_partial.
+
+(* CALLS DO NOT INFLUENCE EACH OTHER. A session is any list of calls (Fcrypt, GenPasswd, CheckPasswd on a slice of the
+   caller's own, CheckPasswd on the very slice an earlier call returned) made by one caller who keeps every result
+   and reads it after the last call. In the model a call is a function of its arguments, so — for ALL histories [pre]
+   and ALL continuations [post] —
+   (1) the answer read at the end for call c is the answer of c given only the values the earlier hash calls return
+       ALONE (what they would return as the only call ever made);
+   (2) a call that refers to no earlier result answers as it does alone, whatever the caller holds;
+   (3) hence the answers of a sequence of such calls are the map of the single-call answers;
+   (4) CheckPasswd(h, pw) with h the slice call d returned is CheckPasswd on the value d returns alone: later calls
+       ([mid]) have not changed h, and the check does not compare h with itself.
+   This is trivially true of the model (it has no state to share) and is stated so that the harness predicate
+   "every kept slice still holds crypt(3) of ITS OWN password and salt; a kept hash rejects a wrong password" has its
+   counterpart; whether crypt.Fcrypt / cmbbs.* ARE such functions is validated by ops 5 and 6 of checks/C02.py. *)
+Theorem C02_calls_independent :
+  (forall pre c post, nth_error (session (pre ++ c :: post)) (length pre) = Some (step (map kept_alone pre) c)) /\
+  (forall kept c, closed c = true -> step kept c = alone c) /\
+  (forall calls, Forall (fun c => closed c = true) calls -> session calls = map alone calls) /\
+  (forall pre d mid post pw h, kept_alone d = Some h ->
+     nth_error (session (pre ++ d :: mid ++ CCheckKept (length pre) pw :: post)) (length (pre ++ d :: mid)) =
+     Some (Some (res_map wire_bool (check_passwd h pw)))).
+Proof. exact calls_independent. Qed.
+Print Assumptions C02_calls_independent.
+
+(* ... and in every order: however the same calls are rearranged (the order in which concurrent requests happen to be
+   served), every call gets the answer it gets alone. Interleavings INSIDE a call do not exist in the model; for the
+   Go code they are exercised by op 6 (goroutines, every answer compared with the sequential one). *)
+Theorem C02_order_independent : forall calls calls', Permutation calls calls' -> Forall (fun c => closed c = true) calls ->
+  Permutation (combine calls (session calls)) (combine calls' (session calls')).
+Proof. exact order_independent. Qed.
+Print Assumptions C02_order_independent.
